@@ -1257,3 +1257,42 @@ func (ex *Exec) reportViolation(label string, fr *frame, needCheck bool) {
 	ex.violation = v
 	ex.end(OutViolation, label)
 }
+
+// modelForPath produces concrete input values for a path that ended in a runtime fault.
+func (ex *Exec) modelForPath(label string) (v *Violation) {
+	defer func() {
+		if r := recover(); r != nil {
+			v = nil
+		}
+	}()
+	if ex.checkPC(nil) != Sat {
+		return nil
+	}
+	v = &Violation{Label: label, Model: map[string]uint64{}, Notes: ex.notes, Inputs: ex.inputs}
+	var vars []*Term
+	for _, t := range ex.inputTerms {
+		if t != nil && t.op == OVar && t.sort != SArr {
+			vars = append(vars, t)
+		}
+	}
+	v.Model = ex.solver.Values(vars)
+	for i, t := range ex.inputTerms {
+		if t != nil && t.sort == SArr {
+			n := ex.inputs[i].N
+			sel := make([]*Term, n)
+			for k := 0; k < n; k++ {
+				sel[k] = ex.tc.Select(t, ex.tc.BV(32, uint64(k)))
+			}
+			m := ex.solver.Values(sel)
+			bs := make([]int, n)
+			for k := 0; k < n; k++ {
+				bs[k] = int(m[ref(sel[k])])
+			}
+			if v.Arrays == nil {
+				v.Arrays = map[string][]int{}
+			}
+			v.Arrays[t.name] = bs
+		}
+	}
+	return v
+}
